@@ -23,6 +23,18 @@ ASSUMPTIONS = ["FlatMap::insert replaces an existing entry"]
 
 def run(ctx):
     fx, res = ctx.fx, ctx.res
+    # ---- R9.5b index base of a resumed cluster: parse_short_arg resumes a flag-subcommand cluster with advance_by(skip) and later cuts the
+    # attached value with next_value_os at the iterator's index INTO THE WHOLE TOKEN.  Only ShortFlags::new builds utf8_prefix (from `inner`);
+    # every other writer may only empty it — an advance_by that re-creates the iterator from the remaining text restarts the indices at 0
+    # and the attached value of a resumed cluster picks up the characters already consumed by the parent level.
+    nw = 0
+    for b in ctx.fx.crate("clap_lex").bodies:
+        for i, s_ in writes_field(b, "utf8_prefix"):
+            nw += 1
+            e = expr(b, s_["rv"]["op"]) if s_["rv"]["k"] == "use" else "?"
+            res.check(e == "char_indices('')", "R9.5", "utf8_prefix-writer|" + b.q, b.where(), "utf8_prefix only emptied outside ShortFlags::new",
+                      "%s reassigns ShortFlags::utf8_prefix to %s: its char indices no longer count from the start of the token, so next_value_os splits `inner` at the wrong offset after a resumed flag-subcommand cluster" % (b.q, e[:80]))
+    res.floor("R9.5", "writers of ShortFlags::utf8_prefix outside new()", nw, 1)
     # ---- R9.1
     dp = fx.body("clap_builder::builder::command::Command::_do_parse")
     oks = [i for i, j, s in dp.stmts() if s["k"] == "assign" and s["place"] == 0 and s["rv"]["k"] == "agg" and s["rv"].get("variant") == "Ok"]
